@@ -1021,6 +1021,21 @@ func runCheckpointScript(sc *Script) (devs []Deviation, sr *scriptRun, err error
 	for _, st := range sc.Steps {
 		switch st.Do {
 		case "startFeed":
+			// a feed is only started again once its previous run has completely ended
+			ready := true
+			for _, r := range pendingStops {
+				if c := collector(r); c != nil {
+					select {
+					case <-c.done:
+					case <-time.After(300 * time.Millisecond):
+						ready = false
+					}
+				}
+			}
+			if !ready {
+				sr.log = append(sr.log, "startFeed skipped (previous run still ending)")
+				continue
+			}
 			startFeed(st.Lane, st.Arm, false)
 		case "stopFeed":
 			if cur != nil && !cur.stopped {
